@@ -9,11 +9,12 @@ import (
 
 // Pack is a rule pack.
 type Pack struct {
-	ID   string
-	Run  func(p *core.Prog, r *core.Report, tier string)
-	Expl string // clauses decided / not decided
-	Rule string // how obligations are enumerated
+	ID          string
+	Run         func(p *core.Prog, r *core.Report, tier string)
+	Expl        string // clauses decided / not decided
+	Rule        string // how obligations are enumerated
 	Assumptions []string
+	Technique   string // a few words naming the deciding method
 }
 
 var packs = map[string]*Pack{}
